@@ -220,3 +220,26 @@ Theorem C10_request_opts_wf : forall w c,
   wf_cfg c.
 Proof. exact request_opts_wf. Qed.
 Print Assumptions C10_request_opts_wf.
+
+(* RuleEngine DetectionOnly ([engine_cfg EngDetectionOnly]), ProcessPartial: same buffering, truncation and
+   data-error flag as On, the body phase at most once, and never an interruption, even with a deny rule *)
+Theorem C10_detection_only_partial : forall c ks,
+  wf_cfg c -> c_access c = true -> c_action c = ProcessPartial -> calls_ok ks ->
+  let c' := engine_cfg EngDetectionOnly c in
+  let s' := tb_final c' (init c') ks in
+  s_intr s' = None
+  /\ stored s' = firstn (Z.to_nat (L c)) (supplied ks)
+  /\ s_dataerr s' = (L c <=? blen (supplied ks))
+  /\ (s_runs s' <= 1)%nat.
+Proof. exact detection_only_partial. Qed.
+Print Assumptions C10_detection_only_partial.
+
+(* DetectionOnly, Reject: the limit action does not look at the engine mode; the call reaching the limit
+   is still answered with 413 / 500 (what the code does - finding F12, listed under C02) *)
+Theorem C10_detection_only_reject_still_rejects : forall c ws k,
+  wf_cfg c -> c_access c = true -> c_action c = Reject -> writes_ok (ws ++ [k]) ->
+  let c' := engine_cfg EngDetectionOnly c in
+  r_intr (snd (tb_step c' (tb_final c' (init c') ws) k))
+  = (if L c <=? blen (supplied (ws ++ [k])) then Some (limit_status (c_dir c)) else None).
+Proof. exact detection_only_reject_still_rejects. Qed.
+Print Assumptions C10_detection_only_reject_still_rejects.
